@@ -1020,3 +1020,175 @@ func enclosingCase(path []ast.Node) *ast.CaseClause {
 	}
 	return cc
 }
+
+// MINIFY.session-wide-sets — C17: "exported names and package-qualified
+// references keep working across all files of one minify session".  Whether a
+// top-level definition must keep its name is decided file by file, but the two
+// facts the decision rests on — somebody wrote `pkg:name`, somebody wrote
+// `(export 'name)` — can each be stated in ANY file of the session.  So the
+// function that decides has two phases: collect over all files, then decide.
+func init() {
+	register(&Rule{ID: "MINIFY.session-wide-sets", Floor: 3,
+		Doc: "in preservePackageSurfaceSymbols the per-file decision loop reads only maps that were completed, by loops over ALL files, before it starts; among them one is filled through the export recogniser (exportNames) and one through the qualified-symbol recogniser (splitQualifiedSymbol) — an export or a qualified reference written in one file protects the definition written in another",
+		Run: func(c *Ctx) []Obligation {
+			const rid = "MINIFY.session-wide-sets"
+			fn, fd, pkg := c.LookupFunc("minifier.preservePackageSurfaceSymbols")
+			expN := c.LookupPkgFunc("minifier.exportNames")
+			qual := c.LookupPkgFunc("minifier.splitQualifiedSymbol")
+			p1 := c.LookupPkgFunc("minifier.preserveNodeSymbol")
+			p2 := c.LookupPkgFunc("minifier.preserveQualifiedDefinitionNode")
+			if fn == nil || expN == nil || qual == nil || p1 == nil || p2 == nil {
+				return []Obligation{anchorMissing(rid, "minifier.preservePackageSurfaceSymbols / exportNames / splitQualifiedSymbol / preserve*")}
+			}
+			u := FuncUnit{fn, fd, pkg}
+			info := pkg.TypesInfo
+			inMin := func(p string) bool { return rel(p) == "minifier" }
+			reachExp := c.staticReach(inMin, expN)
+			reachQual := c.staticReach(inMin, qual)
+			var files types.Object
+			for _, f := range fd.Type.Params.List {
+				for _, nm := range f.Names {
+					if sl, ok := info.Defs[nm].Type().Underlying().(*types.Slice); ok {
+						if n, ok := sl.Elem().(*types.Named); ok && n.Obj().Name() == "parsedFile" {
+							files = info.Defs[nm]
+						}
+					}
+				}
+			}
+			if files == nil {
+				return []Obligation{anchorMissing(rid, "the []parsedFile parameter of preservePackageSurfaceSymbols")}
+			}
+			overFiles := func(n ast.Node) bool {
+				rs, ok := n.(*ast.RangeStmt)
+				return ok && identObj(info, rs.X) == files
+			}
+			// decision loop: the file loop whose body preserves
+			var decision *ast.RangeStmt
+			var fileLoops []*ast.RangeStmt
+			for _, st := range fd.Body.List {
+				if !overFiles(st) {
+					continue
+				}
+				rs := st.(*ast.RangeStmt)
+				fileLoops = append(fileLoops, rs)
+				for _, ce := range callsIn(rs.Body, false) {
+					if f := originOf(Callee(info, ce)); f == p1 || f == p2 {
+						if decision == nil {
+							decision = rs
+						}
+					}
+				}
+			}
+			if decision == nil {
+				return []Obligation{mkOb(c, rid, u, "decision loop", fd, Undecided, "no top-level loop over the files that calls preserveNodeSymbol / preserveQualifiedDefinitionNode was found", true)}
+			}
+			// local maps read inside the decision loop
+			type mapUse struct {
+				obj         types.Object
+				fillsBefore []ast.Node
+				fillsLate   []ast.Node
+				viaExp      bool
+				viaQual     bool
+			}
+			uses := map[types.Object]*mapUse{}
+			ast.Inspect(decision.Body, func(n ast.Node) bool {
+				ix, ok := n.(*ast.IndexExpr)
+				if !ok {
+					return true
+				}
+				o := identObj(info, ix.X)
+				if o == nil || o.Parent() == nil || o.Pkg() == nil {
+					return true
+				}
+				if _, ok := o.Type().Underlying().(*types.Map); !ok {
+					return true
+				}
+				if o.Pos() < fd.Body.Pos() || o.Pos() > decision.Pos() {
+					return true // not a local declared before the loop
+				}
+				if uses[o] == nil {
+					uses[o] = &mapUse{obj: o}
+				}
+				return true
+			})
+			record := func(mu *mapUse, n ast.Node, callee *types.Func) {
+				if n.Pos() >= decision.Pos() && n.End() <= decision.End() || n.Pos() > decision.End() {
+					mu.fillsLate = append(mu.fillsLate, n)
+					return
+				}
+				// must sit in a loop over all files
+				in := false
+				for _, fl := range fileLoops {
+					if fl != decision && n.Pos() >= fl.Pos() && n.End() <= fl.End() {
+						in = true
+					}
+				}
+				if !in {
+					mu.fillsLate = append(mu.fillsLate, n)
+					return
+				}
+				mu.fillsBefore = append(mu.fillsBefore, n)
+				if callee != nil {
+					if callee == expN || reachExp[callee] {
+						mu.viaExp = true
+					}
+					if callee == qual || reachQual[callee] {
+						mu.viaQual = true
+					}
+				}
+			}
+			ast.Inspect(fd.Body, func(n ast.Node) bool {
+				switch x := n.(type) {
+				case *ast.CallExpr:
+					for _, a := range x.Args {
+						if mu := uses[identObj(info, a)]; mu != nil {
+							record(mu, x, originOf(Callee(info, x)))
+						}
+					}
+				case *ast.AssignStmt:
+					for _, l := range x.Lhs {
+						if ix, ok := ast.Unparen(l).(*ast.IndexExpr); ok {
+							if mu := uses[identObj(info, ix.X)]; mu != nil {
+								record(mu, x, nil)
+							}
+						}
+					}
+				}
+				return true
+			})
+			var obs []Obligation
+			haveExp, haveQual := false, false
+			names := []string{}
+			byName := map[string]*mapUse{}
+			for o, mu := range uses {
+				names = append(names, o.Name())
+				byName[o.Name()] = mu
+			}
+			sort.Strings(names)
+			for _, nm := range names {
+				mu := byName[nm]
+				construct := "map " + nm + " read by the decision loop"
+				switch {
+				case len(mu.fillsLate) > 0:
+					obs = append(obs, mkOb(c, rid, u, construct, mu.fillsLate[0], Violated, "the map is still being filled while (or after) definitions are judged, or is filled outside a loop over all files: a definition in an earlier file is judged before a later file's export or reference has been seen", true))
+				case len(mu.fillsBefore) == 0:
+					obs = append(obs, mkOb(c, rid, u, construct, decision, Undecided, "no fill site found for this map", true))
+				default:
+					obs = append(obs, mkOb(c, rid, u, construct, mu.fillsBefore[0], Proved, "completed by a loop over all files before the decision loop starts", true))
+					haveExp = haveExp || mu.viaExp
+					haveQual = haveQual || mu.viaQual
+				}
+			}
+			if haveExp {
+				obs = append(obs, mkOb(c, rid, u, "session-wide export set", decision, Proved, "a map filled through exportNames over all files is consulted", true))
+			} else {
+				obs = append(obs, mkOb(c, rid, u, "session-wide export set", decision, Violated, "no map consulted by the decision loop is filled through the export recogniser over all files: `(export 'helper)` written in one file of a package does not protect `(defun helper …)` written in another (the per-file analysis of the defining file does not know the name is exported), so the definition is renamed and every user of the exported name finds it unbound", true))
+			}
+			if haveQual {
+				obs = append(obs, mkOb(c, rid, u, "session-wide qualified-reference set", decision, Proved, "a map filled through splitQualifiedSymbol over all files is consulted", true))
+			} else {
+				obs = append(obs, mkOb(c, rid, u, "session-wide qualified-reference set", decision, Violated, "no map consulted by the decision loop is filled through the qualified-symbol recogniser over all files: `pkg:name` written in another file does not protect the private definition it names", true))
+			}
+			return obs
+		}})
+}
